@@ -59,7 +59,12 @@ inline cocls::async<void> pj_await_pool(pool_round &X, pool_job &j) {
         co_await *X.pool;
         if (!is_current(*X.pool)) j.off_worker.fetch_add(1, std::memory_order_relaxed);
         j.ran.fetch_add(1, std::memory_order_relaxed);
-    } catch (const cocls::await_canceled_exception &) { j.cancelled.fetch_add(1, std::memory_order_relaxed); }
+    } catch (const cocls::await_canceled_exception &) {
+        // a cancelled continuation is ordinary user code: it may ask the pool about its state (locking method). With an explicit
+        // stop() the pool object is certainly alive here.
+        if (X.stop_mode != PS_STOP_NONE && !X.pool->is_stopped()) j.off_worker.fetch_add(100, std::memory_order_relaxed);
+        j.cancelled.fetch_add(1, std::memory_order_relaxed);
+    }
 }
 inline cocls::async<void> pj_await_awt(pool_round &X, pool_job &j) {
     try {
